@@ -21,10 +21,12 @@ where
     Concat { observables: observables.to_vec() }
   }
   pub fn execute(&self, source: Observable<'a, Item>) -> Observable<'a, Item> {
-    let observables = Arc::new(RwLock::new(VecDeque::from_iter(
-      self.observables.clone().into_iter(),
-    )));
+    let observables = self.observables.clone();
     Observable::create(move |s| {
+      // each subscription plays the whole list: the queue must not be shared
+      let observables = Arc::new(RwLock::new(VecDeque::from_iter(
+        observables.clone().into_iter(),
+      )));
       let sctl = StreamController::new(s);
 
       fn complete_and_next<'a, Item>(
